@@ -1963,5 +1963,115 @@ theorem nodup_handover (ids xs : List Ident) (hn : ids.Nodup) (hx : xs.Nodup) :
   subst hab
   exact (mem_releaseAll hn ha).2 hb
 
+/-! ### pens that predate identifiers -/
+
+theorem drawContourTo_eq (caps : PenCaps) (c : Contour R) : drawContourTo caps c = drawContour (c.cap caps) := by
+  simp [drawContourTo, drawContour, Contour.cap, List.map_map, Function.comp_def]
+
+theorem drawComponentTo_eq (caps : PenCaps) (k : Component R) :
+    drawComponentTo caps k = drawComponent (k.cap caps) := by
+  simp only [drawComponentTo, drawComponent, Component.cap]
+
+theorem drawRawContourTo_eq (caps : PenCaps) (c : RawContour R) :
+    drawRawContourTo caps c = drawContour (c.toContour.cap caps) := by
+  simp [drawRawContourTo, drawContour, Contour.cap, RawContour.toContour, List.map_map, Function.comp_def]
+
+theorem flatMap_drawContourTo (caps : PenCaps) (cs : List (Contour R)) :
+    cs.flatMap (drawContourTo caps) = (cs.map (Contour.cap caps)).flatMap drawContour := by
+  induction cs with
+  | nil => rfl
+  | cons c cs ih => simp only [List.flatMap_cons, List.map_cons, ih, drawContourTo_eq]
+
+theorem flatMap_drawRawContourTo (caps : PenCaps) (cs : List (RawContour R)) :
+    cs.flatMap (drawRawContourTo caps) = ((cs.map RawContour.toContour).map (Contour.cap caps)).flatMap drawContour := by
+  induction cs with
+  | nil => rfl
+  | cons c cs ih => simp only [List.flatMap_cons, List.map_cons, ih, drawRawContourTo_eq]
+
+theorem flatMap_drawComponentTo (caps : PenCaps) (ks : List (Component R)) :
+    ks.flatMap (drawComponentTo caps) = (ks.map (Component.cap caps)).flatMap drawComponent := by
+  induction ks with
+  | nil => rfl
+  | cons k ks ih => simp only [List.flatMap_cons, List.map_cons, ih, drawComponentTo_eq]
+
+/-- whatever form the contours are stored in, a pen with capabilities `caps` receives the glyph's
+outline as far as it can be told it -/
+theorem drawTo_eq_outline (caps : PenCaps) (g : Glyph R) :
+    g.drawTo caps = (g.outline.map (Contour.cap caps)).flatMap drawContour ++
+      (g.components.map (Component.cap caps)).flatMap drawComponent := by
+  unfold Glyph.drawTo Glyph.outline
+  rw [flatMap_drawComponentTo]
+  cases hs : g.shallow with
+  | none => simp only [flatMap_drawContourTo]
+  | some raws =>
+    cases raws with
+    | nil => simp only [flatMap_drawContourTo]
+    | cons c cs => simp only [flatMap_drawRawContourTo]
+
+theorem map_capEv_drawContour (caps : PenCaps) (c : Contour R) :
+    (drawContour c).map (capEv caps) = drawContour (c.cap caps) := by
+  simp [drawContour, Contour.cap, capEv, List.map_map, Function.comp_def]
+
+theorem map_capEv_contours (caps : PenCaps) (cs : List (Contour R)) :
+    (cs.flatMap drawContour).map (capEv caps) = (cs.map (Contour.cap caps)).flatMap drawContour := by
+  induction cs with
+  | nil => rfl
+  | cons c cs ih => simp only [List.flatMap_cons, List.map_append, List.map_cons, ih, map_capEv_drawContour]
+
+theorem map_capEv_components (caps : PenCaps) (ks : List (Component R)) :
+    (ks.flatMap drawComponent).map (capEv caps) = (ks.map (Component.cap caps)).flatMap drawComponent := by
+  induction ks with
+  | nil => rfl
+  | cons k ks ih =>
+    simp only [List.flatMap_cons, List.map_append, List.map_cons, ih]
+    simp [drawComponent, capEv, Component.cap]
+
+theorem drawTo_eq_map (caps : PenCaps) (g : Glyph R) : g.drawTo caps = g.draw.map (capEv caps) := by
+  rw [drawTo_eq_outline, draw_eq_outline, List.map_append, map_capEv_contours, map_capEv_components]
+
+theorem Contour.cap_full (c : Contour R) : c.cap PenCaps.full = c := by
+  cases c; simp [Contour.cap, PenCaps.full]
+
+theorem Component.cap_full (k : Component R) : k.cap PenCaps.full = k := by
+  simp [Component.cap, PenCaps.full]
+
+theorem Contour.cap_old (c : Contour R) : c.cap PenCaps.old = c.eraseIds := by
+  simp [Contour.cap, PenCaps.old, Contour.eraseIds]
+
+theorem Component.cap_old (k : Component R) : k.cap PenCaps.old = { k with ident := none } := by
+  simp [Component.cap, PenCaps.old]
+
+theorem drawTo_full (g : Glyph R) : g.drawTo PenCaps.full = g.draw := by
+  rw [drawTo_eq_outline, draw_eq_outline]
+  congr 2
+  · exact List.map_id'' (fun c => Contour.cap_full c) _
+  · exact List.map_id'' (fun k => Component.cap_full k) _
+
+theorem slots_eraseIds (c : Contour R) : present c.eraseIds.slots = [] := by
+  simp only [Contour.slots, Contour.eraseIds, present_none, List.map_map]
+  induction c.points with
+  | nil => rfl
+  | cons p ps ih => simp [present] at ih ⊢
+
+theorem identsOf_old (cs : List (Contour R)) (ks : List (Component R)) :
+    identsOf (cs.map (Contour.cap PenCaps.old)) (ks.map (Component.cap PenCaps.old)) = [] := by
+  unfold identsOf
+  rw [present_append]
+  have h1 : present (slotsOf (cs.map (Contour.cap PenCaps.old))) = [] := by
+    induction cs with
+    | nil => rfl
+    | cons c cs ih =>
+      rw [List.map_cons, slotsOf_cons, present_append, ih, Contour.cap_old, slots_eraseIds]
+      rfl
+  have h2 : present (compSlots (ks.map (Component.cap PenCaps.old))) = [] := by
+    induction ks with
+    | nil => rfl
+    | cons k ks ih =>
+      simp only [compSlots, List.map_cons, List.map_map] at ih ⊢
+      rw [Component.cap_old, present_none]
+      exact ih
+  rw [h1, h2]
+  rfl
+
 end Pen
 end DefconModel
